@@ -164,6 +164,8 @@ pub struct DSheet {
     pub children_order: Vec<String>,
     pub shared_string_refs: Vec<usize>,
     pub inline_strings: Vec<String>,
+    /// sheet-level annotations decoded by ECMA-376 names (see `decode_annotations`)
+    pub annot: serde_json::Value,
 }
 
 #[derive(Clone, Debug, Default, Serialize, Deserialize, PartialEq)]
@@ -627,6 +629,7 @@ pub fn decode_files(files: &BTreeMap<String, Vec<u8>>) -> Result<Decoded, String
             }
         }
         ds.comments.sort();
+        ds.annot = decode_annotations(tree);
         d.sheets.push(ds);
     }
     // definedName localSheetId inside sheet list
@@ -680,4 +683,74 @@ fn norm_t(t: &str) -> String {
         "s" | "inlineStr" => "text".to_string(),
         o => o.to_string(),
     }
+}
+
+
+fn lower_first(s: &str) -> String {
+    let mut c = s.chars();
+    match c.next() {
+        Some(f) => f.to_lowercase().collect::<String>() + c.as_str(),
+        None => String::new(),
+    }
+}
+
+/// `Whole` (Debug of the library's enum) vs `whole` (attribute value in the file)
+pub fn enum_name(debug: &str) -> String {
+    lower_first(debug)
+}
+
+/// Sheet-level annotations of a worksheet part, by the names and defaults of ECMA-376 Part 1 §18.3.1.
+/// Only attributes with an unambiguous schema meaning are decoded (strings: absent = ""; type of a
+/// validation: absent = none).
+pub fn decode_annotations(ws: &El) -> serde_json::Value {
+    use serde_json::json;
+    let a = |e: &El, k: &str| e.attr(k).unwrap_or("").to_string();
+    let mut validations: Vec<serde_json::Value> = Vec::new();
+    if let Some(dvs) = ws.child("dataValidations") {
+        for dv in dvs.kids("dataValidation") {
+            validations.push(json!({
+                "sqref": a(dv, "sqref"),
+                "type": dv.attr("type").unwrap_or("none"),
+                "f1": dv.child("formula1").map(|f| f.text.clone()).unwrap_or_default(),
+                "f2": dv.child("formula2").map(|f| f.text.clone()).unwrap_or_default(),
+                "prompt_title": a(dv, "promptTitle"), "prompt": a(dv, "prompt"),
+                "error_title": a(dv, "errorTitle"), "error": a(dv, "error"),
+            }));
+        }
+    }
+    validations.sort_by_key(|v| v.to_string());
+    let mut cfs: Vec<serde_json::Value> = Vec::new();
+    for cf in ws.kids("conditionalFormatting") {
+        let rules: Vec<serde_json::Value> = cf
+            .kids("cfRule")
+            .map(|r| json!({"type": a(r, "type"), "priority": a(r, "priority"), "text": a(r, "text"), "formula": r.child("formula").map(|f| f.text.clone())}))
+            .collect();
+        cfs.push(json!({"sqref": a(cf, "sqref"), "rules": rules}));
+    }
+    cfs.sort_by_key(|v| v.to_string());
+    let view = ws.child("sheetViews").and_then(|v| v.child("sheetView"));
+    let pane = view.and_then(|v| v.child("pane")).map(|p| {
+        json!({
+            "h": p.attr("xSplit").and_then(|x| x.parse::<f64>().ok()).unwrap_or(0.0),
+            "v": p.attr("ySplit").and_then(|x| x.parse::<f64>().ok()).unwrap_or(0.0),
+            "tl": a(p, "topLeftCell"),
+            "state": p.attr("state").unwrap_or("split"),
+        })
+    });
+    let prot = ws.child("sheetProtection").map(|p| json!({"alg": a(p, "algorithmName"), "hash": a(p, "hashValue"), "salt": a(p, "saltValue"), "spin": a(p, "spinCount")}));
+    json!({
+        "validations": validations,
+        "cond_formats": cfs,
+        "auto_filter": ws.child("autoFilter").map(|f| a(f, "ref")),
+        "tab_color": ws.child("sheetPr").and_then(|p| p.child("tabColor")).map(|c| match (c.attr("rgb"), c.attr("indexed"), c.attr("theme")) {
+            (Some(r), _, _) => r.to_string(),
+            (_, Some(i), _) => format!("indexed:{}", i),
+            (_, _, Some(t)) => format!("theme:{}", t),
+            _ => "auto".to_string(),
+        }),
+        "pane": pane,
+        "header": ws.child("headerFooter").and_then(|h| h.child("oddHeader")).map(|h| h.text.clone()).unwrap_or_default(),
+        "footer": ws.child("headerFooter").and_then(|h| h.child("oddFooter")).map(|h| h.text.clone()).unwrap_or_default(),
+        "protection": prot,
+    })
 }
